@@ -84,7 +84,9 @@ def run(cmd, env=None, cpu=20, stdin=None, cwd=None, max_out=1 << 20, as_mb=4096
         # e2fsck installs its own handler for the fatal signals (e2fsck/sigcatcher.c): it prints 'Signal (N) SIG...' with a backtrace and exits 8. That is a crash,
         # not an operational error - report it as death by that signal.
         m = _SIGCATCHER.search(r.out) or _SIGCATCHER.search(r.err)
-        if m: r.sig = int(m.group(1)); r.rc = None
+        if m and int(m.group(1)) in (signal.SIGSEGV, signal.SIGBUS, signal.SIGFPE, signal.SIGILL, signal.SIGABRT): r.sig = int(m.group(1)); r.rc = None
+        elif m and int(m.group(1)) == signal.SIGXCPU: r.sig = signal.SIGXCPU; r.rc = None       # our own CPU limit, caught by the tool
+        elif m and int(m.group(1)) == signal.SIGXFSZ: r.sig = signal.SIGXFSZ; r.rc = None       # our own file size limit (a write at a huge offset of the sparse image): inconclusive for the caller
     r.cpu_limit_hit = r.sig in (signal.SIGXCPU, signal.SIGKILL) and not r.truncated
     return r
 
